@@ -96,7 +96,9 @@ class OnDiskStorage:
         if enum is not None:
             return EnumArray(numpy.load(file), enum)
 
-        array: t.Array[t.DTypeGeneric] = numpy.load(file)
+        # Arrays of ``str`` variables have an object dtype: ``numpy.save`` pickles
+        # them, so they have to be unpickled to be read back.
+        array: t.Array[t.DTypeGeneric] = numpy.load(file, allow_pickle=True)
 
         return array
 
